@@ -1487,8 +1487,79 @@ def fam_normalize(case):
     return acc.result(False)
 
 
+OFFSETS = [0.0, 2.0 ** 23, 12000000.0, -(2.0 ** 24 - 1)]
+OFF_THR = [0.3, 0.8]
+
+
+def _off_dist(X, Y, metric):
+    d = np.abs(X[:, None, :] - Y[None, :, :])
+    if metric == "manhattan":
+        return d.sum(axis=2)
+    if metric == "supremum":
+        return d.max(axis=2)
+    return np.sqrt((d * d).sum(axis=2))
+
+
+def fam_offset(case):
+    """State vectors far from the origin and close to each other: one
+    component is a large constant (an integer below 2^24, exact in the single
+    precision the library stores), the others are small dyadic values, so the
+    pairwise differences - the only thing a recurrence plot may depend on -
+    are exact and no realised distance lies within 0.04 of a threshold."""
+    from pyunicorn.timeseries import RecurrencePlot, RecurrenceNetwork, \
+        CrossRecurrencePlot, JointRecurrencePlot
+    name, n, off, metric = case
+    acc = Acc()
+    a, b = _pattern(name, n), _pattern("qres", n)
+    c = np.full(n, off)
+    X = np.stack([c, a, b], axis=1)
+    Y = np.stack([c, b[::-1], a[::-1]], axis=1)[:max(2, n - 3)]
+    tag = "offset>=2^23" if off else "offset=0"
+    D = _off_dist(X, X, metric)
+    Dxy = _off_dist(X, Y, metric)
+    for t in OFF_THR:
+        exp = (D < t).astype(int)
+        for cls in (RecurrencePlot, RecurrenceNetwork):
+            acc.evals += 1
+            rp = cls(X.copy(), metric=metric, threshold=t, normalize=False,
+                     silence_level=3)
+            got = np.asarray(rp.distance_matrix(metric))
+            if got.shape != D.shape or not np.allclose(got, D, rtol=1e-6,
+                                                       atol=1e-6):
+                acc.v("%s.distance_matrix:value:%s:%s" % (
+                    cls.__name__, metric, tag), "distances of dyadic state "
+                    "vectors are not the %s norms of their differences" %
+                    metric, got[0, :6], D[0, :6])
+            R = np.asarray(rp.recurrence_matrix())
+            if R.shape != exp.shape or not np.array_equal(R, exp):
+                acc.v("%s.recurrence_matrix:value:%s:%s" % (
+                    cls.__name__, metric, tag), _diff(R, exp))
+            acc.see(R.sum())
+        acc.evals += 2
+        crp = CrossRecurrencePlot(X.copy(), Y.copy(), metric=metric,
+                                  threshold=t, normalize=False,
+                                  silence_level=3)
+        CR = np.asarray(crp.recurrence_matrix())
+        expc = (Dxy < t).astype(int)
+        if CR.shape != expc.shape or not np.array_equal(CR, expc):
+            acc.v("CrossRecurrencePlot.recurrence_matrix:value:%s:%s" % (
+                metric, tag), _diff(CR, expc))
+        Yj = np.stack([c, b[::-1], a[::-1]], axis=1)
+        jrp = JointRecurrencePlot(X.copy(), Yj.copy(), metric=(metric, metric),
+                                  threshold=(t, t), normalize=False,
+                                  silence_level=3)
+        JR = np.asarray(jrp.recurrence_matrix())
+        expj = exp * (_off_dist(Yj, Yj, metric) < t).astype(int)
+        if JR.shape != expj.shape or not np.array_equal(JR, expj):
+            acc.v("JointRecurrencePlot.recurrence_matrix:value:%s:%s" % (
+                metric, tag), _diff(JR, expj))
+        acc.see(CR.sum(), JR.sum())
+    return acc.result(False)
+
+
 FAMILIES = {"rp": fam_rp, "cross": fam_cross, "joint": fam_joint,
-            "isrn": fam_isrn, "scale": fam_scale, "normalize": fam_normalize}
+            "isrn": fam_isrn, "scale": fam_scale, "normalize": fam_normalize,
+            "offset": fam_offset}
 
 
 # --------------------------------------------------------------------------
@@ -1710,6 +1781,13 @@ def run(ctx):
               for met in METRICS]
         ctx.explore("normalize", nc, chunk=1, desc="normalize=True: stored "
                     "series, state vectors and R of plots and networks")
+    if not only or "offset" in only:
+        oc = [[nm, n, off, met] for nm in ("saw", "steps", "squares")
+              for n in ([17, 40] + ([131] if thorough else []))
+              for off in OFFSETS for met in METRICS]
+        ctx.explore("offset", oc, chunk=1, desc="3-D dyadic trajectories "
+                    "with one constant component 0, 2^23, 1.2e7, -(2^24-1): distances "
+                    "and R of RP/RN/cross/joint plots vs norms of differences")
     sc = _scale_cases(thorough)
     if not only or "scale" in only:
         ctx.explore("scale", sc, chunk=1, desc="130..300 state vectors: "
